@@ -32,13 +32,17 @@ type Obligation struct {
 // holding their current value.  A missing key means "entry value".
 type State struct {
 	m     map[string]string
-	epoch string // "" = entry; otherwise the id of the last havoc-everything
+	epoch string          // "" = entry; otherwise the id of the last havoc-everything
+	held  map[string]bool // locks held on this path
 }
 
-func newState() *State { return &State{m: map[string]string{}} }
+func newState() *State { return &State{m: map[string]string{}, held: map[string]bool{}} }
 func (s *State) clone() *State {
 	n := newState()
 	n.epoch = s.epoch
+	for k, v := range s.held {
+		n.held[k] = v
+	}
 	for k, v := range s.m {
 		n.m[k] = v
 	}
@@ -125,7 +129,6 @@ type VC struct {
 	modAll   bool
 	checkFrame bool
 	discovery int
-	held     map[string]bool
 	inlineDepth int
 	lenHint  map[string]int // SMT term of a slice -> its statically known length
 	inlineStack []*ssa.Function
@@ -166,7 +169,7 @@ const smtPrelude = `(set-option :produce-models true)
 func newVC(p *Prog, fnName string) *VC {
 	vc := &VC{
 		p: p, fnName: fnName, declared: map[string]bool{}, tags: map[string]int{}, tagTypes: map[int]types.Type{},
-		strLits: map[string]string{}, used: newUsage(), nameCount: map[string]int{}, held: map[string]bool{},
+		strLits: map[string]string{}, used: newUsage(), nameCount: map[string]int{},
 		ifaceAsserted: map[string]types.Type{}, tagFactsDone: map[string]bool{}, lenHint: map[string]int{},
 	}
 	vc.out = append(vc.out, smtPrelude)
@@ -599,6 +602,17 @@ func (vc *VC) mergeStates(conds []string, states []*State) *State {
 	sort.Strings(ks)
 	out := newState()
 	out.epoch = states[0].epoch
+	for k := range states[0].held {
+		all := true
+		for _, s := range states[1:] {
+			if !s.held[k] {
+				all = false
+			}
+		}
+		if all {
+			out.held[k] = true
+		}
+	}
 	if !sameEpoch {
 		vc.nfresh++
 		out.epoch = fmt.Sprintf("m%d", vc.nfresh)
